@@ -20,7 +20,8 @@ HS_TOL = 8 * 2.0 ** -23          # hillshade: 8 ulp(1.0f) absolute
 RULE = ('elevation rasters 1x1 .. 7x7 of every dtype uint8..uint64/int8..int64/float32/float64 from the classes flat, ramps, '
         'small integers with ties, random floats, values >= 2^24, NaN/+-inf cells; cell size from res = scalar / (x,y) tuple / '
         'list / ndarray / unusable / absent with ascending or descending, integer or fractional coordinates, cx != cy; '
-        'hillshade azimuth/altitude grids; plus, on the implementation, the property\'s metamorphic checks: constant offset, '
+        'hillshade azimuth/altitude grids; the same stream Dask-backed (every dtype x single chunk / 1-cell chunks / uneven '
+        'chunks, results computed and compared exactly like the NumPy ones); plus, on the implementation, the property\'s metamorphic checks: constant offset, '
         'single-cell poke (to NaN or another value), quarter turn with square cells. A case is non-trivial when the raster has '
         'at least one interior cell; distinct by JSON encoding.')
 TRUSTED = [
@@ -39,7 +40,8 @@ TRUSTED = [
     'exact instance (option Q, None = NaN, x/0 = NaN) has no infinities and no rounding',
 ]
 ASSUMPTIONS = [
-    'NumPy backend (Dask/CuPy equality is C01)',
+    'NumPy and Dask(NumPy) backends; the model is the NumPy kernel, a Dask result must equal it (CuPy not available here)',
+    'a Dask-backed hillshade of a raster with < 2 cells along an axis returns all NaN (padded blocks) where NumPy raises; oracle only',
     'cell sizes are positive Python ints/floats (a zero cell size raises ZeroDivisionError in the Numba kernels)',
     'rasters without a usable res attribute have >= 2 cells per dimension (calc_res divides by n-1)',
     'hillshade rasters have >= 2 cells per dimension (np.gradient requirement; smaller rasters raise ValueError, modelled as error)',
@@ -327,8 +329,9 @@ def gen_raster(rng, dt=None, shape=None, kind=None):
     return dt, kind, data
 
 
-def gen_geometry(rng, rows, cols):
-    """res attribute + coordinates"""
+def gen_geometry(rng, rows, cols, allow_mixed=True):
+    """res attribute + coordinates.  An (int, float) cell-size pair is a separate Numba specialisation of slope._cpu per
+    raster dtype (~0.5 s each), so mixed pairs are drawn only where [allow_mixed] (float64 rasters)"""
     u = rng.random()
     ints = [1, 2, 3, 10, 30]
     flts = [1.0, 0.5, 2.0, 0.25, 30.0, 3.7, 0.1, 12.5]
@@ -337,6 +340,8 @@ def gen_geometry(rng, rows, cols):
         res = dict(kind='scalar', v=rng.choice(ints + flts), form='scalar')
     elif u < 0.6:
         a, b = rng.choice(ints + flts), rng.choice(ints + flts)
+        if not allow_mixed and isinstance(a, int) != isinstance(b, int):
+            b = rng.choice(ints) if isinstance(a, int) else rng.choice(flts)
         if rng.random() < 0.2:
             b = a
         form = rng.choice(['tuple', 'tuple', 'list', 'ndarray'])
@@ -410,7 +415,34 @@ def make_agg(case, data=None):
     coords = {}
     if case['coords']:
         coords = {'y': np.array(case['ys']), 'x': np.array(case['xs'])}
+    if case.get('chunks') is not None:
+        a = wrap_dask(a, case['chunks'])
     return xr.DataArray(a, dims=['y', 'x'], coords=coords, attrs=attrs, name='terrain')
+
+
+def wrap_dask(a, chunks):
+    import dask.array as da
+    ch = tuple(tuple(c) if isinstance(c, (list, tuple)) else c for c in chunks)
+    return da.from_array(a, chunks=ch)
+
+
+def split_sizes(rng, n):
+    """a random composition of n (uneven chunk sizes along one axis)"""
+    out = []
+    left = n
+    while left > 0:
+        k = rng.randint(1, max(1, min(3, left)))
+        out.append(k)
+        left -= k
+    return out
+
+
+def gen_chunks(rng, rows, cols, style):
+    if style == 'single':
+        return [rows, cols]
+    if style == 'cells':
+        return [1, 1]
+    return [split_sizes(rng, rows), split_sizes(rng, cols)]
 
 
 def to_lists(a):
@@ -571,7 +603,9 @@ def metamorphic(ctx, m, case, outs, params):
     elif which == 'turn':
         sq = dict(case, res=dict(kind='pair', v=[2.0, 2.0], form='tuple'), coords=False)
         a1 = make_agg(sq)
-        d2 = np.rot90(a1.data).copy()
+        d2 = np.rot90(np.asarray(a1.data)).copy()
+        if case.get('chunks') is not None:
+            d2 = wrap_dask(d2, [1, 1] if case['chunks'] == [1, 1] else list(d2.shape))
         a2 = xr.DataArray(d2, dims=['y', 'x'], attrs=dict(a1.attrs), name='terrain')
         for fn in ['slope', 'curvature', 'aspect']:
             o1 = np.asarray(run_fn(m, fn, a1).data)
@@ -629,8 +663,9 @@ def run_case(ctx, m, consts, case, pending, meta=True):
             outs[fn] = None
             ctx.violation('oracle', '%s raised %s: %s' % (fn, type(e).__name__, e), dict(case, fn=fn))
             continue
-        want = 'float64' if fn == 'hillshade' else 'float32'
         oracle_raster(ctx, case, fn, out, params)
+        if fn == 'hillshade' and case.get('chunks') is not None and (rows < 2 or cols < 2):
+            continue                # Dask pads every block, np.gradient does not raise: all-NaN, checked by the oracle
         if rows and cols:
             pending.append((model_line(case, fn, consts, params), [v for r in out for v in r], case, fn, params))
     if rng.random() < 0.15 and rows >= 1 and cols >= 1:
@@ -650,7 +685,7 @@ def new_case(rng, **kw):
     dt, kind, data = gen_raster(rng, **kw)
     rows = len(data)
     cols = len(data[0]) if rows else 0
-    res, xs, ys, coords = gen_geometry(rng, rows, cols)
+    res, xs, ys, coords = gen_geometry(rng, rows, cols, allow_mixed=(dt == 'float64'))
     case = dict(dtype=dt, kind=kind, data=data, res=res, xs=xs, ys=ys, coords=coords)
     case['exact'] = is_exact_class(case)
     return case
@@ -661,7 +696,7 @@ def run(ctx, model=True):
     consts = source_constants(m)
     rng = ctx.rng
     pending = []
-    n = 260 if ctx.quick() else 12000
+    n = 200 if ctx.quick() else 12000
     cases = []
     # named hard cases: every dtype on a ramp and on ties, cx != cy
     for dt in INT_DT + ['float32', 'float64']:
@@ -671,12 +706,30 @@ def run(ctx, model=True):
             cases.append(c)
     for _ in range(n):
         cases.append(new_case(rng))
+    # Dask-backed stream: every dtype (all integer dtypes included) x {single chunk, 1-cell chunks, uneven chunks}
+    styles = ['single', 'cells', 'uneven']
+    kinds_i = ['ramp', 'ties', 'small', 'big', 'signed']
+    k = 0
+    for dt in INT_DT + ['float32', 'float64']:
+        for st in styles:
+            kind = kinds_i[k % len(kinds_i)] if not dt.startswith('float') else ['ramp', 'special', 'rand', 'frac', 'ties'][k % 5]
+            if dt.startswith('u') and kind == 'signed':
+                kind = 'small'
+            k += 1
+            c = new_case(rng, dt=dt, shape=(rng.randint(3, 4), rng.randint(3, 5)), kind=kind)
+            c['chunks'] = gen_chunks(rng, len(c['data']), len(c['data'][0]), st)
+            cases.append(c)
+    for _ in range(12 if ctx.quick() else 1500):
+        c = new_case(rng)
+        rows_ = len(c['data'])
+        c['chunks'] = gen_chunks(rng, rows_, len(c['data'][0]) if rows_ else 0, rng.choice(styles))
+        cases.append(c)
     for case in cases:
         rows = len(case['data'])
         cols = len(case['data'][0]) if rows else 0
         ctx.case(case, nontrivial=rows >= 3 and cols >= 3)
-        ctx.count('%s/%s/res=%s%s' % (case['dtype'], case['kind'], case['res'].get('form', case['res']['kind']),
-                                      '+coords' if case['coords'] else ''))
+        ctx.count('%s%s/%s/res=%s%s' % ('dask:' if case.get('chunks') is not None else '', case['dtype'], case['kind'],
+                                        case['res'].get('form', case['res']['kind']), '+coords' if case['coords'] else ''))
         run_case(ctx, m, consts, case, pending)
     if model:
         compare_model(ctx, pending)
